@@ -161,8 +161,9 @@ def check_props_file(props):
             cur = True
             continue
         if cur:
-            m = re.match(r"^([A-Za-z_][\w.']*)\s*:", line)
-            if m:
+            # an axiom entry starts at column 0 with its qualified name; its type may continue on indented lines
+            m = re.match(r"^([A-Za-z_][\w.']*)\s*(:|$)", line)
+            if m and not line.startswith(("Closed under", "Axioms:", "File ", "Warning")):
                 axioms.add(m.group(1))
             elif line.startswith(" ") or line.strip() == "":
                 continue
@@ -283,6 +284,12 @@ def mutate(patch, pids, tier="quick"):
             p = subprocess.run([sys.executable, os.path.join(ROOT, "fv"), "check", pid, "--tier", tier], env=env, cwd=ROOT)
             rcs[pid] = p.returncode
     finally:
+        # translators wrote Gallina generated from the MUTATED copy into the shared coq/ tree: regenerate from /repo
+        specs = load_specs()
+        for pid in pids:
+            pre = specs.get(pid, {}).get("coq_pre_cmd")
+            if pre:
+                sh(pre, cwd=ROOT, timeout=600, env={"FV_REPO": "/repo"})
         sh(["git", "-C", "/repo", "worktree", "remove", "--force", repo2])
         sh(["git", "-C", "/repo", "worktree", "prune"])
         shutil.rmtree(scratch, ignore_errors=True)
